@@ -96,6 +96,9 @@ func (in *Intake) Receive(op *BuiltOp) {
 		return
 	}
 	w.T.Probe("intake_accepted")
+	if op.Honest && w.CheckIntake {
+		w.checkCreateReply(op)
+	}
 	if op.Honest {
 		if string(res.Type) != string(op.Truth.Kind) || res.UniqueSuffix != op.Truth.Suffix || res.ID != ns+":"+op.Truth.Suffix ||
 			!bytes.Equal(res.OperationRequest, op.Bytes) {
